@@ -344,7 +344,33 @@ def prog_nested09(rng, **kw):
     return prog
 
 
-FAMILIES = {"nested09": prog_nested09, "lookback": prog_lookback, "flat": prog_flat, "nested": prog_nested, "bankrupt": prog_bankrupt, "flows": prog_flows}
+def prog_fi(rng, **kw):
+    """Fixed-income strategy at backtest level: mixed security kinds, coupon and
+    holding-cost schedules, SetNotional-scaled Rebalance (C17, C18)."""
+    T = rng.randint(6, 9)
+    kinds = rng.sample(["cpsec", "cpsec", "fisec", "hedge", "sec", "cphedge"], rng.randint(2, 4))
+    names = TICKERS[: len(kinds)]
+    prog = {"T": T, "cols": list(names), "px": {n: [rng.choice([95, 98, 100, 100, 101, 104]) for _ in range(T)] for n in names}, "extra": {},
+            "bt": {"capital": 0, "integer": rng.random() < 0.5, "comm": COMMS[rng.choice(["zero", "zero", "fix"])]}}
+    cp = [n for n, k in zip(names, kinds) if k in ("cpsec", "cphedge")]
+    if cp:
+        prog["extra"]["coupons"] = {n: [rng.choice([0, 0, 0.25, 0.5, 1]) for _ in range(T)] for n in names}
+        mode = rng.choice(["both", "long", "short", "none"])
+        if mode in ("both", "long"):
+            prog["extra"]["cost_long"] = {n: [rng.choice([0, 0.05, 0.1]) for _ in range(T)] for n in cp}
+        if mode in ("both", "short"):
+            prog["extra"]["cost_short"] = {n: [rng.choice([0, 0.05, 0.2]) for _ in range(T)] for n in cp}
+    if rng.random() < 0.4:
+        prog["extra"]["bidoffer"] = {n: [rng.choice([0, 2]) for _ in range(T)] for n in names}
+    prog["extra"]["notional"] = {"__series__": True, "values": [rng.choice([1000, 1000, 2000, 500]) for _ in range(T)]}
+    w = {n: float(rng.choice([Fraction(1, 2), Fraction(1, 4), Fraction(-1, 4), Fraction(1, 5), Fraction(0)])) for n in names}
+    st = [rng.choice([["RunDaily", {}], ["RunEveryNPeriods", {"n": 2}], ["RunOnce", {}]]), ["WeighSpecified", {"w": w}], ["SetNotional", {"notional": "notional"}], ["Rebalance", {}]]
+    prog["tree"] = {"name": "r", "fi": True, "algos": st, "children": [{"sec": n, "kind": k, "mult": 1} for n, k in zip(names, kinds)]}
+    prog["family"] = "fi"
+    return prog
+
+
+FAMILIES = {"fi": prog_fi, "nested09": prog_nested09, "lookback": prog_lookback, "flat": prog_flat, "nested": prog_nested, "bankrupt": prog_bankrupt, "flows": prog_flows}
 
 
 def prog_by_family(seed, i, family):
